@@ -144,6 +144,7 @@ class SearchModel:
     object_param: str | None = None
     subst: object = None  # substitution used for the guards (boolean locals, boolean helpers, canonical hierarchy atom)
     node_maps: dict[str, NodeMap] = field(default_factory=dict)
+    subtree_maps: dict[str, str] = field(default_factory=dict)  # T -> collection parameter, for `T = {o: get_all_submodules_of(graph, o) for o in P}`
 
     def hier(self, nvar: str | None = None) -> Formula:
         """Canonical atom 'the edge between the current node and the neighbour is a hierarchy edge' (correctly oriented)."""
@@ -2643,7 +2644,31 @@ def _is_base_of(call: ast.AST, value: ast.AST) -> bool:
         return _is_base_of(call, v.func.value)
     if isinstance(v, ast.IfExp):
         return _is_base_of(call, v.body) or _is_base_of(call, v.orelse)
+    # `call | E` / `call.union(E)`: the set computed by the call with more put in (what is put in is judged as [exempt set])
+    if isinstance(v, ast.BinOp) and isinstance(v.op, ast.BitOr):
+        return _is_base_of(call, v.left) or _is_base_of(call, v.right)
+    if isinstance(v, ast.Call) and isinstance(v.func, ast.Attribute) and v.func.attr == "union":
+        return _is_base_of(call, v.func.value)
     return False
+
+
+def _addends(value: ast.AST, base: ast.AST) -> list[ast.AST]:
+    """[E..] for `B | E`, `E | B`, `B.union(E, ..)` around the base expression B (nested and wrapped forms included)."""
+    v = strip(value)
+    if v is base:
+        return []
+    if isinstance(v, ast.BinOp) and isinstance(v.op, ast.BitOr):
+        if _is_base_of(base, v.left):
+            return _addends(v.left, base) + [v.right]
+        if _is_base_of(base, v.right):
+            return [v.left] + _addends(v.right, base)
+    if isinstance(v, ast.Call) and isinstance(v.func, ast.Attribute) and v.func.attr == "union" and _is_base_of(base, v.func.value):
+        return _addends(v.func.value, base) + list(v.args)
+    if isinstance(v, ast.BinOp) and isinstance(v.op, ast.Sub):
+        return _addends(v.left, base)
+    if isinstance(v, ast.Call) and isinstance(v.func, ast.Attribute) and v.func.attr == "difference":
+        return _addends(v.func.value, base)
+    return []
 
 
 def _receiving_var(call: ast.AST) -> tuple[str | None, bool]:
@@ -2738,7 +2763,10 @@ def _subtree_sites(m: SearchModel, single: dict[str, ast.expr]) -> list[SubtreeS
         if target is not None and not assigned and target in single and ((isinstance(strip(single[target]), _COMPS) and strip(single[target]).elt is c) or (isinstance(single[target], ast.DictComp) and single[target].value is c)):
             # `trees = (get_all_submodules_of(graph, m) for m in P)`: a collection of sub-trees, not a node set; the node set is
             # what the collection is flattened into (`X = set().union(*trees)`, `X.update(*trees)`, `{n for t in trees for n in t}`)
+            holder = target
             target, fills = _flattened_into(fn, target)
+            if target is None and isinstance(single[holder], ast.DictComp):
+                target = holder  # not united into one node set: a sub-tree per key (see _keyed_by_object)
         else:
             fills = []
         site = SubtreeSite(c, arg, None, None, [], target, assigned, None)
@@ -3112,6 +3140,8 @@ def build(repo: Repo, fi: FuncInfo) -> SearchModel | None:
         key = st.target if st.target is not None else norm(st.call)
         if st.param is not None and (st.assigned or st.target is None):
             model.submodule_sets.setdefault(key, st.param)
+        elif st.collection is not None and st.target is not None and _keyed_by_object(st):
+            model.subtree_maps.setdefault(st.target, st.collection)  # one sub-tree per object, not their union
         elif st.collection is not None and st.target is not None:
             model.accumulated_sets.setdefault(st.target, st.collection)
     for n in ast.walk(fn):
@@ -3183,8 +3213,55 @@ def _map_lookup(m: SearchModel, e: ast.AST) -> tuple[NodeMap, ast.AST] | None:
     return None
 
 
+def _keyed_by_object(st: SubtreeSite) -> bool:
+    """The looked-up sub-tree is stored under its object: `{o: get_all_submodules_of(g, o) for o in P}` / `T[o] = get_all_submodules_of(g, o)`."""
+    par = parent(st.call)
+    if isinstance(par, ast.DictComp) and par.value is st.call and isinstance(par.key, ast.Name) and par.key.id == st.arg and not st.fills:
+        return True
+    if isinstance(par, ast.Assign) and par.value is st.call and len(par.targets) == 1 and isinstance(par.targets[0], ast.Subscript) and isinstance(par.targets[0].slice, ast.Name) and par.targets[0].slice.id == st.arg:
+        return True
+    return False
+
+
+def _objects_loop(m: SearchModel, loop: ast.AST) -> tuple[str, str | None] | None:
+    """(object variable, variable holding its sub-tree | None) for a loop over all objects of a search that answers for a collection
+    of objects: `for o in P`, `for o in T` / `T.keys()`, `for o, tree in T.items()` (P the collection parameter, T a sub-tree map)."""
+    if not isinstance(loop, (ast.For, ast.AsyncFor)):
+        return None
+    it = strip(loop.iter)
+    how = None
+    if isinstance(it, ast.Call) and isinstance(it.func, ast.Attribute) and it.func.attr in ("items", "keys") and not it.args and isinstance(it.func.value, ast.Name) and it.func.value.id in m.subtree_maps:
+        how = it.func.attr
+    elif isinstance(it, ast.Name) and (it.id in m.subtree_maps or it.id in m.collection_params):
+        how = "keys"
+    if how == "items" and isinstance(loop.target, ast.Tuple) and len(loop.target.elts) == 2 and all(isinstance(x, ast.Name) for x in loop.target.elts):
+        return loop.target.elts[0].id, loop.target.elts[1].id
+    if how == "keys" and isinstance(loop.target, ast.Name):
+        return loop.target.id, None
+    return None
+
+
+def each_object(m: SearchModel, ev: Event) -> tuple[str, list[str], ast.AST] | None:
+    """(object variable, texts of the sets that hold its sub-tree, the loop) when the event sits, inside the neighbour iteration,
+    in a loop over all objects and is filed under the loop's object."""
+    if not isinstance(ev.key, ast.Name):
+        return None
+    nv = ev.nvar or m.neighbour_var
+    it = next((i for i in m.neighbour_iters if i.var == nv and i.gen is None and _inside_body(ev.call, i.node)), None)
+    for a in ancestors(ev.call):
+        if it is not None and a is it.node:
+            break
+        got = _objects_loop(m, a)
+        if got is not None and got[0] == ev.key.id:
+            k, tree = got
+            sets = [f"{t}[{k}]" for t in m.subtree_maps] + ([tree] if tree else [])
+            return k, sets, a
+    return None
+
+
 def _object_vars(m: SearchModel) -> list[str]:
-    """Locals that hold an object looked up in a node map: `o = D[n]`, `for o in D[n]`."""
+    """Locals that hold an object of a search answering for a collection of objects: looked up in a node map (`o = D[n]`,
+    `for o in D[n]`) or bound by a loop over all objects (`for o in P`, `for o, tree in T.items()`)."""
     out: list[str] = []
     for n in ast.walk(m.fi.node):
         tgt = val = None
@@ -3194,6 +3271,9 @@ def _object_vars(m: SearchModel) -> list[str]:
             tgt, val = n.target.id, n.iter
         if tgt is not None and _map_lookup(m, val) is not None and tgt not in out and tgt not in m.fi.param_names:
             out.append(tgt)
+        got = _objects_loop(m, n) if any(isinstance(a, (ast.For, ast.AsyncFor, ast.While)) for a in ancestors(n)) else None
+        if got is not None and got[0] not in out and got[0] not in m.fi.param_names:
+            out.append(got[0])
     return out
 
 
